@@ -75,6 +75,8 @@ var faultLine = map[string]int{"x = s[i]": 1, "x = s[const]": 1, "s[const] = v":
 
 var filler = []string{"u := a + 1", "u := a * 2 - 1", "w := []int{a, a + 1}", "w := map[string]int{\"k\": a}", "o := &T{V: a}", "u := a", "u := a - 0",
 	// function literals: what follows them in the same body still belongs to the enclosing function
+	// a native that calls back into the script (the comparison function) while this chain is active
+	"w := sorted(a)", "w := sorted(a + 1)",
 	"u := func(x int) int { return x + 1 }", "u := func(x int) int { return x + 1 }(a)", "w := []func() int{func() int { return 1 }}", "o := &T{V: func() int { return 2 }()}"}
 
 func genCase(rt *rapid.T) *Case {
@@ -82,6 +84,25 @@ func genCase(rt *rapid.T) *Case {
 	b.add("package app")
 	b.add("")
 	b.add("import \"fmt\"")
+	b.add("import \"golang.org/x/exp/slices\"")
+	b.add("")
+	b.add("func lt2(x int, y int) bool {")
+	b.add("\treturn x < y")
+	b.add("}")
+	b.add("")
+	b.add("func lt1(x int, y int) bool {")
+	b.add("\treturn lt2(x, y)")
+	b.add("}")
+	b.add("")
+	b.add("func less(x int, y int) bool {")
+	b.add("\treturn lt1(x, y)")
+	b.add("}")
+	b.add("")
+	b.add("func sorted(a int) []int {")
+	b.add("\tw := []int{a, 3, 1, 2}")
+	b.add("\tslices.SortFunc(w, less)")
+	b.add("\treturn w")
+	b.add("}")
 	b.add("")
 	b.add("type T struct {")
 	b.add("\tV    int")
